@@ -251,12 +251,19 @@ def recOf (u : Usage) (s : Slot) : KRec := ⟨u, s.validFrom, s.status, s.status
 /-- Both maps of every key set are maps. -/
 def WF (o : KeyObj) : Prop := ∀ u x, o u = some x → KeysNodup x.all ∧ KeysNodup x.active
 
-theorem wf_empty : WF KeyObj.empty := by intro u x h; cases h
+theorem KeyObj.empty_get (u : Usage) : KeyObj.empty u = none := by cases u <;> rfl
+
+theorem KeyObj.set_get (o : KeyObj) (u : Usage) (x : UObj) (v : Usage) :
+    (o.set u x) v = if v = u then some x else o v := by
+  cases u <;> cases v <;> rfl
+
+theorem wf_empty : WF KeyObj.empty := by
+  intro u x h; rw [KeyObj.empty_get] at h; cases h
 
 theorem wf_set {o : KeyObj} (h : WF o) (u : Usage) (x : UObj)
     (hx : KeysNodup x.all ∧ KeysNodup x.active) : WF (o.set u x) := by
   intro v y hv
-  unfold KeyObj.set at hv
+  rw [KeyObj.set_get] at hv
   by_cases hvu : v = u
   · simp only [hvu, if_true, Option.some.injEq] at hv; subst hv; exact hx
   · simp only [hvu, if_false] at hv; exact h v y hv
@@ -279,12 +286,14 @@ theorem getD_active (o : KeyObj) (u : Usage) :
 
 theorem allOf_set (o : KeyObj) (u : Usage) (x : UObj) (v : Usage) (k : Nat) :
     allOf (o.set u x) v k = if v = u then lookup x.all k else allOf o v k := by
-  unfold allOf KeyObj.set
+  unfold allOf
+  rw [KeyObj.set_get]
   by_cases h : v = u <;> simp [h]
 
 theorem activeOf_set (o : KeyObj) (u : Usage) (x : UObj) (v : Usage) :
     activeOf (o.set u x) v = if v = u then x.active else activeOf o v := by
-  unfold activeOf KeyObj.set
+  unfold activeOf
+  rw [KeyObj.set_get]
   by_cases h : v = u <;> simp [h]
 
 /-! ### `load_key_object` -/
@@ -347,7 +356,7 @@ theorem allOf_loadObj (m : KMap) (hm : KeysNodup m) (u : Usage) (k : Nat) :
       | none => none := by
   obtain ⟨h1, _, h3⟩ := sortByKey_spec m hm
   rw [loadObj_eq, allOf_foldl_stepL _ h1, h3]
-  have : allOf KeyObj.empty u k = none := rfl
+  have : allOf KeyObj.empty u k = none := by unfold allOf; rw [KeyObj.empty_get]; rfl
   simp only [this]
 
 theorem lookup_append_single (p : List (Nat × α)) (e : Nat × α) (hn : e.1 ∉ p.map (·.1)) (j : Nat) :
@@ -455,7 +464,7 @@ theorem actInv_loadObj (m : KMap) (hm : KeysNodup m) (u : Usage) :
   obtain ⟨h1, _, h3⟩ := sortByKey_spec m hm
   have h0 : ActInv [] KeyObj.empty u := by
     constructor
-    · intro vf kid hl; simp [activeOf, KeyObj.empty, lookup] at hl
+    · intro vf kid hl; simp [activeOf, KeyObj.empty_get, lookup] at hl
     · intro kid r hr; simp [lookup] at hr
   have := actInv_foldl (sortByKey m) [] KeyObj.empty u (by simpa using h1) h0
   rw [loadObj_eq]
@@ -481,7 +490,7 @@ theorem setMap_get (g : Usage → UObj → UObj) (o : KeyObj) (u w : Usage) :
   unfold setMap
   cases hu : o u with
   | none => by_cases hw : w = u <;> simp [hw, hu]
-  | some x => by_cases hw : w = u <;> simp [KeyObj.set, hw]
+  | some x => by_cases hw : w = u <;> simp [KeyObj.set_get, hw]
 
 theorem foldSet_get (g : Usage → UObj → UObj) (l : List Usage) (hl : l.Nodup) (o : KeyObj)
     (v : Usage) :
@@ -970,10 +979,7 @@ theorem replRepl_spec (o n : KRec) : replRepl o n = decide (o.status.rank > n.st
 /-! ### The entry before the plugin (`invalidate` trim, or the retain device) -/
 
 /-- The stored map the plugin merges into. -/
-def preMap (a : Action) (trim : Nat) (m : KMap) : KMap :=
-  match a.retain with
-  | some j => retainMap m j
-  | none => trimMap trim m
+def preMap (_a : Action) (trim : Nat) (m : KMap) : KMap := trimMap trim m
 
 theorem keys_retainMap (m : KMap) (j : Nat) : (retainMap m j).map (·.1) = m.map (·.1) := by
   unfold retainMap
@@ -1002,40 +1008,24 @@ theorem lookup_retainMap (m : KMap) (j k : Nat) :
       · rw [if_neg hc]; simp only [lookup, hk, if_false]; exact ih
 
 theorem keysNodup_preMap (a : Action) (trim : Nat) (m : KMap) (h : KeysNodup m) :
-    KeysNodup (preMap a trim m) := by
-  unfold preMap
-  cases a.retain with
-  | none => exact keysNodup_filter _ m h
-  | some j => unfold KeysNodup; rw [keys_retainMap]; exact h
+    KeysNodup (preMap a trim m) := keysNodup_filter _ m h
 
-/-- Per key: dropped (only a `Revoked` record can be), kept, or `Valid` turned `Retained`. -/
+/-- Per key: dropped (only a `Revoked` record can be) or kept. -/
 theorem preMap_cases (a : Action) (trim : Nat) (m : KMap) (h : KeysNodup m) (k : Nat) :
     (lookup (preMap a trim m) k = none ∧
         (lookup m k = none ∨ ∃ r, lookup m k = some r ∧ r.status = .revoked)) ∨
-    (∃ r, lookup m k = some r ∧
-        (lookup (preMap a trim m) k = some r ∨
-          (r.status = .valid ∧ lookup (preMap a trim m) k = some { r with status := .retained }))) := by
+    (∃ r, lookup m k = some r ∧ lookup (preMap a trim m) k = some r) := by
   unfold preMap
-  cases a.retain with
-  | none =>
-    simp only [trimMap]
-    rw [lookup_filter (keepRec trim) m h]
-    cases hl : lookup m k with
-    | none => exact Or.inl ⟨rfl, Or.inl rfl⟩
-    | some r =>
-      by_cases hk : keepRec trim r = true
-      · exact Or.inr ⟨r, rfl, Or.inl (by simp [Option.filter, hk])⟩
-      · refine Or.inl ⟨by simp [Option.filter, hk], Or.inr ⟨r, rfl, ?_⟩⟩
-        unfold keepRec at hk
-        cases hs : r.status <;> simp [hs] at hk ⊢
-  | some j =>
-    simp only [lookup_retainMap]
-    cases hl : lookup m k with
-    | none => exact Or.inl ⟨rfl, Or.inl rfl⟩
-    | some r =>
-      by_cases hc : k = j ∧ r.status = .valid
-      · exact Or.inr ⟨r, rfl, Or.inr ⟨hc.2, by simp [hc]⟩⟩
-      · exact Or.inr ⟨r, rfl, Or.inl (by simp [hc])⟩
+  simp only [trimMap]
+  rw [lookup_filter (keepRec trim) m h]
+  cases hl : lookup m k with
+  | none => exact Or.inl ⟨rfl, Or.inl rfl⟩
+  | some r =>
+    by_cases hk : keepRec trim r = true
+    · exact Or.inr ⟨r, rfl, by simp [Option.filter, hk]⟩
+    · refine Or.inl ⟨by simp [Option.filter, hk], Or.inr ⟨r, rfl, ?_⟩⟩
+      unfold keepRec at hk
+      cases hs : r.status <;> simp [hs] at hk ⊢
 
 /-- One modify, per key that is not freshly generated. -/
 theorem modifyEntry_lookup (m0 mi m' : KMap) (h0 : KeysNodup m0) (hi : KeysNodup mi)
@@ -1142,5 +1132,133 @@ theorem replMergeMap_lookup (n o : KMap) (hn : KeysNodup n) (ho : KeysNodup o) (
 theorem keepRec_of_not_revoked (t : Nat) (r : KRec) (h : r.status ≠ .revoked) : keepRec t r = true := by
   unfold keepRec
   cases hs : r.status <;> simp_all
+
+
+/-! ### A requested revocation takes effect -/
+
+theorem Evolves.keeps_some {cid : Nat} {can : Prop} {a b : Option Slot} (h : Evolves cid can a b)
+    {s : Slot} (ha : a = some s) : ∃ s', b = some s' := by
+  rcases h with h | ⟨_, s', _, hb, _⟩
+  · exact ⟨s, by rw [← h, ha]⟩
+  · exact ⟨s', hb⟩
+
+theorem Evolves.keeps_none {cid : Nat} {can : Prop} {a b : Option Slot} (h : Evolves cid can a b)
+    (ha : a = none) : b = none := by
+  rcases h with h | ⟨s, _, h1, _⟩
+  · rw [← h, ha]
+  · rw [ha] at h1; cases h1
+
+theorem Evolves.keeps_revoked {cid : Nat} {can : Prop} {a b : Option Slot} (h : Evolves cid can a b)
+    (ha : ∃ s, a = some s ∧ s.status = .revoked) : ∃ s', b = some s' ∧ s'.status = .revoked := by
+  obtain ⟨s, hs, hr⟩ := ha
+  rcases h with h | ⟨_, s', _, hb, _, hrev, _⟩
+  · exact ⟨s, by rw [← h, hs], hr⟩
+  · exact ⟨s', hb, hrev⟩
+
+theorem revoke_sets (x : UObj) (u : Usage) (kid cid : Nat) (s : Slot)
+    (h : lookup x.all kid = some s) :
+    ∃ s', lookup (x.revoke u kid cid).1.all kid = some s' ∧ s'.status = .revoked := by
+  unfold UObj.revoke
+  rw [h]
+  by_cases hc : (revokeSkipsRevoked u && decide (s.status = .revoked)) = true
+  · simp only [hc, if_true]
+    refine ⟨s, h, ?_⟩
+    simp only [Bool.and_eq_true, decide_eq_true_eq] at hc
+    exact hc.2
+  · simp only [hc]
+    simp only [Bool.false_eq_true, if_false, lookup_mapInsert, if_true]
+    exact ⟨_, rfl, rfl⟩
+
+theorem mem_revokeOrder (u : Usage) : u ∈ revokeOrder := by cases u <;> simp [revokeOrder]
+
+theorem revokeOne_sets (o : KeyObj) (kid cid : Nat) (v : Usage) (s : Slot)
+    (h : allOf o v kid = some s) :
+    ∃ s', allOf (o.revokeOne kid cid).1 v kid = some s' ∧ s'.status = .revoked := by
+  rw [revokeOne_fst]
+  unfold allOf at h ⊢
+  rw [foldSet_get _ _ revokeOrder_nodup]
+  simp only [mem_revokeOrder, if_true]
+  cases hov : o v with
+  | none => rw [hov] at h; cases h
+  | some x =>
+    rw [hov] at h
+    simp only [Option.bind_some] at h
+    simp only [Option.map_some, Option.bind_some]
+    exact revoke_sets x v kid cid s h
+
+theorem revokeKeys_sets (ks : List Nat) (o ko : KeyObj) (cid k : Nat) (v : Usage) (s : Slot)
+    (h : o.revokeKeys ks cid = some ko) (hk : k ∈ ks) (hs : allOf o v k = some s) :
+    ∃ s', allOf ko v k = some s' ∧ s'.status = .revoked := by
+  induction ks generalizing o s with
+  | nil => cases hk
+  | cons kd tl ih =>
+    simp only [KeyObj.revokeKeys] at h
+    by_cases hr : (o.revokeOne kd cid).2 = true
+    · simp only [hr, if_true] at h
+      by_cases hkd : k = kd
+      · subst hkd
+        have h1 := revokeOne_sets o k cid v s hs
+        exact ((revokeKeys_evolves tl _ ko cid k h v).1).keeps_revoked h1
+      · have hmem : k ∈ tl := by
+          rcases List.mem_cons.1 hk with hh | hh
+          · exact absurd hh hkd
+          · exact hh
+        obtain ⟨s1, hs1⟩ := (revokeOne_evolves o kd cid k v).keeps_some hs
+        exact ih _ s1 h hmem hs1
+    · simp [hr] at h
+
+theorem pluginFold_revokes (classes : List Usage) (a : Action) (now cid : Nat) (fresh : Fresh)
+    (k : Nat) (hk : NotFresh fresh k) (ks : List Nat) (ha : a.revoke = some ks) (hmem : k ∈ ks)
+    (steps : List PluginStep) (hst : PluginStep.revoke ∈ steps) (ko ko' : KeyObj)
+    (h : steps.foldl (pluginStep classes a now cid fresh) (some ko) = some ko') (v : Usage)
+    (s : Slot) (hs : allOf ko v k = some s) :
+    ∃ s', allOf ko' v k = some s' ∧ s'.status = .revoked := by
+  induction steps generalizing ko s with
+  | nil => cases hst
+  | cons st tl ih =>
+    simp only [List.foldl_cons] at h
+    cases hstep : pluginStep classes a now cid fresh (some ko) st with
+    | none => rw [hstep, pluginFold_none] at h; cases h
+    | some k1 =>
+      rw [hstep] at h
+      by_cases hrev : st = .revoke
+      · subst hrev
+        have hk1 : ko.revokeKeys ks cid = some k1 := by
+          simpa [pluginStep, ha] using hstep
+        have h1 := revokeKeys_sets ks ko k1 cid k v s hk1 hmem hs
+        exact ((pluginFold_evolves classes a now cid fresh k hk tl k1 ko' h v).1).keeps_revoked h1
+      · have hin : PluginStep.revoke ∈ tl := by
+          rcases List.mem_cons.1 hst with hh | hh
+          · exact absurd hh.symm hrev
+          · exact hh
+        obtain ⟨s1, hs1⟩ :=
+          ((pluginStep_evolves classes a now cid fresh k hk ko k1 st hstep v).1).keeps_some hs
+        exact ih hin k1 h s1 hs1
+
+theorem revoke_in_pluginOrder : PluginStep.revoke ∈ pluginOrder := by decide
+
+/-- The staged object lists a key named by `KeyActionRevoke` as `Revoked`. -/
+theorem plugin_revokes (m : KMap) (hm : KeysNodup m) (classes : List Usage) (a : Action)
+    (now cid : Nat) (fresh : Fresh) (ko : KeyObj)
+    (h : pluginObj (loadObj m) classes a now cid fresh = some ko) (k : Nat)
+    (hk : NotFresh fresh k) (ks : List Nat) (ha : a.revoke = some ks) (hmem : k ∈ ks)
+    (r : KRec) (hr : lookup m k = some r) :
+    ∃ r', lookup ko.toMap k = some r' ∧ r'.status = .revoked := by
+  unfold pluginObj at h
+  have hw : WF ko := (pluginFold_evolves classes a now cid fresh k hk _ _ _ h .jwsEs256).2 (wf_loadObj m)
+  have hload : ∀ u, allOf (loadObj m) u k = if u = r.usage then some (slotOf r) else none := by
+    intro u; rw [allOf_loadObj m hm, hr]
+  obtain ⟨s', hs', hrev⟩ := pluginFold_revokes classes a now cid fresh k hk ks ha hmem pluginOrder
+    revoke_in_pluginOrder _ ko h r.usage (slotOf r) (by rw [hload]; simp)
+  have hko : ∀ u, allOf ko u k = if u = r.usage then some s' else none := by
+    intro u
+    by_cases hu : u = r.usage
+    · subst hu; simp [hs']
+    · simp only [hu, if_false]
+      exact ((pluginFold_evolves classes a now cid fresh k hk _ _ _ h u).1).keeps_none
+        (by rw [hload]; simp [hu])
+  refine ⟨recOf r.usage s', ?_, hrev⟩
+  rw [lookup_toMap _ hw, pickUsage_single ko k r.usage s' hko]
+  simp [mem_valuesetOrder]
 
 end Kanidm.KeyObject
